@@ -193,6 +193,25 @@ func useInTest(x *d.T) {
 	d.Helper()
 }
 `},
+			// test files whose base name holds further dots: still test files
+			{Name: "u.gen_test.go", Src: `package u
+
+import "ex.com/m/d"
+
+func useInDottedTest(x *d.T) {
+	x.F = 10 // want IMM01 dep=d/x.go
+	d.Helper()
+}
+`},
+			{Name: "api.v2.pb_test.go", Src: `package u_test
+
+import "ex.com/m/d"
+
+func useInDottedExtTest(x *d.T) int {
+	x.F++ // want IMM03 dep=d/x.go
+	return d.Helper()
+}
+`},
 		}},
 		{Path: "ex.com/m/testdata/p", Files: []prog.File{{Name: "p.go", Src: `package p
 
